@@ -31,6 +31,14 @@ use inputlayer::{Config, StorageEngine, Tuple, Value};
 
 const KG: &str = "default";
 
+/// data directories live on tmpfs when there is one: C18 is not about durability, and two engines per
+/// history otherwise spend most of their time in fsync under a loaded disk
+fn data_dir() -> tempfile::TempDir {
+    let shm = std::path::Path::new("/dev/shm");
+    if shm.is_dir() { if let Ok(d) = tempfile::Builder::new().prefix("ilv-c18-").tempdir_in(shm) { return d; } }
+    tempfile::TempDir::new().unwrap()
+}
+
 fn cfg(d: &std::path::Path) -> Config {
     let mut c = Config::default();
     c.storage.data_dir = d.to_path_buf();
@@ -112,7 +120,7 @@ fn err_kind(e: &str) -> &'static str {
 struct Eng { se: StorageEngine, _d: tempfile::TempDir, inc: bool, names: Vec<String> }
 impl Eng {
     fn new(inc: bool, names: Vec<String>) -> Eng {
-        let d = tempfile::TempDir::new().unwrap();
+        let d = data_dir();
         let se = StorageEngine::new(cfg(d.path())).unwrap();
         Eng { se, _d: d, inc, names }
     }
@@ -216,7 +224,7 @@ use inputlayer::protocol::wire::WireValue;
 struct HEng { h: Handler, _d: tempfile::TempDir, inc: bool, names: Vec<String> }
 impl HEng {
     fn new(inc: bool, names: Vec<String>) -> HEng {
-        let d = tempfile::TempDir::new().unwrap();
+        let d = data_dir();
         let h = Handler::from_config(cfg(d.path())).unwrap();
         HEng { h, _d: d, inc, names }
     }
@@ -583,7 +591,7 @@ fn exhaustive(ctx: &mut Ctx, out: &mut Vec<String>) {
 
 pub fn gen(ctx: &mut Ctx) -> Vec<String> {
     let mut out: Vec<String> = WITNESSES.iter().map(|s| s.to_string()).collect();
-    let n = ctx.budget(520, 5000);
+    let n = ctx.budget(400, 2000);
     for i in 0..n {
         let kind = i % 8;                 // kinds 6,7 = random soup
         ctx.count(&format!("template_{}", kind.min(6)));
